@@ -23,10 +23,19 @@ pub fn run(rep: &mut Report, thorough: bool) {
         let ro = b.anon(3, 2, 4, Fill::Pattern);
         let one = b.anon(1, 1, 6, Fill::Pattern);
         let rx_pages = *rng.pick(&[1u64, 2, 5]);
-        let rx = b.anon(rx_pages, 3, 5, Fill::Pattern);
+        // half of the targets have a distinct readable mapping directly below the r-x one (no gap),
+        // and one directly above
+        let adjacent = rng.chance(1, 2);
+        if adjacent {
+            b.anon(2, 3, 6, Fill::Pattern);
+        }
+        let rx = b.anon(rx_pages, if adjacent { 0 } else { 3 }, 5, Fill::Pattern);
+        if adjacent {
+            b.anon(1, 0, 4, Fill::Pattern);
+        }
         let regions: Vec<(u64, u64)> = [big, ro, one, rx].iter().map(|&i| (b.spec.regions[i].addr, b.spec.regions[i].len)).collect();
         let (rxa, rxl) = regions[3];
-        let hole = rxa - PAGE; // unmapped page right below the r-x region
+        let hole = regions[0].0 - PAGE; // an unmapped page (right below the big region)
         let nthreads = *rng.pick(&[0usize, 1, 3, 8]);
         for _ in 0..nthreads {
             let mode = if rng.chance(1, 4) { Mode::Spin } else { Mode::Pause };
